@@ -5,7 +5,7 @@
 (* in states with and without an allowance.                                           *)
 EXTENDS Token, Json, SequencesExt
 VARIABLE st
-Auths == {{p} : p \in Accts} \cup {{}}
+Auths == {{p} : p \in Accts \ {"token"}} \cup {{}}
 Acts(s) ==
     {[name |-> "Mint", to |-> "alice", amt |-> 2, auth |-> {s.owner}],
      [name |-> "AddMinter", minter |-> "bob", auth |-> {s.owner}]}
@@ -15,6 +15,12 @@ Acts(s) ==
     \cup {[name |-> "Burn", from |-> "alice", amt |-> 1, auth |-> au] : au \in Auths}
     \cup {[name |-> "BurnFrom", spender |-> "bob", from |-> "alice", amt |-> 1, auth |-> au] : au \in Auths}
     \cup {[name |-> "MintFrom", minter |-> "bob", to |-> "carol", amt |-> 1, auth |-> au] : au \in Auths}
+    \* the owner named as minter through the public mint_from
+    \cup {[name |-> "MintFrom", minter |-> s.owner, to |-> "carol", amt |-> 1, auth |-> au] : au \in Auths}
+    \* the token contract's own address named as the debited party by an outside caller
+    \cup {[name |-> "Transfer", from |-> "token", to |-> "bob", amt |-> 0, auth |-> au] : au \in {{}, {"mallory"}}}
+    \cup {[name |-> "Approve", from |-> "token", spender |-> "bob", amt |-> 1, exp |-> s.seq + 5, auth |-> au] : au \in {{}, {"mallory"}}}
+    \cup {[name |-> "Burn", from |-> "token", amt |-> 0, auth |-> {}]}
 Within(s) == Supply(s) <= 3
 Init == st = Blank("its0", "its0", 1)
 EnabledActs(s) == {a \in Acts(s) : Within(Apply(s, a).post)}
